@@ -137,6 +137,29 @@ def _judge(scen, ref, out, oracle):
     return vs
 
 
+def _scale_graph(spec):
+    """n subjects, each a small instance; the statements of the first instances are scattered over the whole document by
+    `moves` (from index, to index): a bounded window / eviction in the profiler must not change what is counted."""
+    n = spec["n"]
+    triples = []
+    for i in range(n):
+        s = gen.iri(gen.EX + "n%d" % i)
+        triples.append((s, gen.iri(gen.RDF_TYPE), gen.iri(gen.EX + "C%d" % (i % 3))))
+        triples.append((s, gen.iri(gen.EX + "p0"), gen.lit("v%d" % (i % 7), gen.XSD + "string")))
+        if i < 4:
+            triples.append((s, gen.iri(gen.EX + "q"), gen.iri(gen.EX + "x%d" % i)))
+            triples.append((s, gen.iri(gen.EX + "q"), gen.iri(gen.EX + "y%d" % i)))
+    return triples
+
+
+def _apply_moves(n, moves):
+    order = list(range(n))
+    for (a, b) in moves:
+        x = order.pop(a)
+        order.insert(b if b >= 0 else len(order) + 1 + b, x)
+    return order
+
+
 def execute(scen, scratch):
     sim = Sim(scratch)
     set_knob(NEVER_FLUSH)
@@ -144,6 +167,12 @@ def execute(scen, scratch):
     verdicts = []
     texts = []
     runs = 0
+    if scen.get("scale"):
+        scen = dict(scen)
+        g = _scale_graph(scen["scale"])
+        scen["graph"] = gen.L(g)
+        o = _apply_moves(len(g), scen["scale"]["moves"])
+        scen["orders"] = [[o, o]]
     triples = [gen.T(t) for t in scen["graph"]]
     n = len(triples)
     moved = _relabel(triples, scen["relabel"])
@@ -203,6 +232,13 @@ def extra_scenarios(tier, base):
     """all permutations of sampled <= 6-statement graphs (document family), and all
     (pass-1, pass-2) order pairs of <= 4-statement graphs (store family)"""
     out = []
+    # scale: tens of thousands of subjects between two statements of one instance
+    for k, n in enumerate([25000] if tier == "quick" else [25000, 70000, 150000]):
+        out.append(("scale-%d" % n, {
+            "family": "document", "format": "nt", "schema": False, "ttl_prefixed": None,
+            "scale": {"n": n, "moves": [[3, -1], [7, -1], [2, n // 2], [11, -1], [4 * n - 1 if False else 2 * n, 0]]},
+            "graph": [], "target": {"all_classes_mode": True}, "options": {"instances_report_mode": "mixed"},
+            "ns": dict(gen.BASE_NS), "relabel": {}, "orders": []}))
     n_graphs = 2 if tier == "quick" else 60
     for gi in range(n_graphs):
         rng = random.Random("C09-exh:%s:%s" % (base, gi))
